@@ -21,7 +21,15 @@ Decided here (equality of printed numbers / archived sets with the library's is 
 import os
 import re
 
+import c14
+import c16
+import effects
 import evalnode as E
+import norm
+import pm
+import q
+from norm import last
+from pm import C, OK, SOME, V, P, ANY
 import hir
 import pipelines
 import semantics as sem
@@ -48,169 +56,161 @@ def run(prog, rep):
         rep.unresolved("C17-R1", "analyse_formulae", "", "function not found")
         return
     rep.functions.add(an.qual)
-    s = eng.summary(an)
+    s = terms.Engine(prog, inline=True, hooks=E.Hooks(["analysis::"])).summary(an)
     pn = an.param_names()
     bn, formulae, ctxpath = ("param", pn[0]), ("param", pn[1]), ("param", pn[4])
-    ext_cond = ("call", None)
-
-    def one(name, kind="call"):
-        xs = [x for x in s.sites if x.kind == kind and (x.is_call_to(name) if kind == "call" else x.name == name)]
-        return xs
-
     where = f"{an.file}:{an.line}"
-    pe, ph = one("parse_extended_formula"), one("parse_hctl_formula")
-    good = len(pe) == 1 and len(ph) == 1
-    why = "expected one call of each parser flavour"
+    HASCTX = ("matches", ctxpath, norm.SOME_DESC)
+    is_formula = lambda t: t[0] == "elem" and c16.source_root(t[1]) == formulae          # noqa: E731
+    evs = [x for x in s.all_sites() if x.kind == "call" and x.is_call_to("eval_node")]
+    if len(evs) != 1:
+        rep.unresolved("C17-R1", "evaluation", where, f"{len(evs)} eval_node call sites in analyse_formulae")
+        return
+    ev = evs[0]
+    tree = ev.args[0]
+    # (1) the evaluated tree: validate_props_and_rename_vars(parse_<flavour>(formula i))
+    e = pm.match(OK(C("validate_props_and_rename_vars", V("parsed"), P(lambda t: terms.mentions_param(t, pn[0])))), tree)
+    rep.check(e is not None, "C17-R1", "validate", ev.where(), "every evaluated tree went through validate_props_and_rename_vars on a context of the given network",
+              f"the evaluated tree is {sem.short(tree, 140)}: not the validated / renamed form of the parsed formula")
+    good, why = False, "the parsed tree could not be recovered"
+    if e is not None:
+        parsed = e["parsed"]
+        alts = (("ite", HASCTX, OK(C("parse_extended_formula", V("f"))), OK(C("parse_hctl_formula", V("f")))),
+                OK(("ite", HASCTX, C("parse_extended_formula", V("f")), C("parse_hctl_formula", V("f")))))
+        e2 = None
+        for a_ in alts:
+            e2 = e2 or pm.match(a_, parsed)
+        good = e2 is not None and is_formula(e2["f"])
+        why = (f"the tree is parsed as {sem.short(parsed, 160)}: expected the extended parser iff a context archive is given, the plain parser otherwise, "
+               "applied to each input formula")
+    rep.check(good, "C17-R1", "parser-flavour", ev.where(), "extended parser iff a context archive is given; every input formula parsed in order", why)
+    # (2) the graph: sized by the maximum number of quantifier variables
+    eg = pm.match(OK(C("get_extended_symbolic_graph", V("bn"), V("m"))), ev.args[1])
+    good = eg is not None and eg["bn"] == bn
+    why = f"eval_node runs on {sem.short(ev.args[1], 100)}, not on get_extended_symbolic_graph(bn, ..)"
     if good:
-        def flag(site):
-            out = []
-            for c in site.pc:
-                if c[0] == "if" and terms.mentions_param(c[1], pn[4]):
-                    t, neg = c[1], False
-                    while t[0] == "not":
-                        neg = not neg
-                        t = t[1]
-                    out.append((t, c[2] != neg))
-            return out
-        fe, fh = flag(pe[0]), flag(ph[0])
-        good = (len(fe) == 1 and len(fh) == 1 and fe[0][0] == fh[0][0] and fe[0][1] and not fh[0][1]
-                and fe[0][0][0] == "call" and fe[0][0][1].endswith("is_some") and fe[0][0][2] == (ctxpath,))
-        why = "the parser flavour is not selected by `context archive given`"
-        loop = [x for x in s.sites if x.kind == "for" and x.node["id"] in pe[0].loops]
+        m = eg["m"]
+        good = m[0] == "mu" and m[3] == ("lit", 0)
+        why = f"the variable count passed to the graph is {sem.short(m, 100)}, not a maximum accumulated from 0"
         if good:
-            good = len(loop) == 1 and pe[0].args[0] == ph[0].args[0] and any(y == ("elem", loop[0].args[0]) for y in subterms(pe[0].args[0]))
-            base = loop[0].args[0] if loop else None
-            while base is not None and base[0] == "call" and base[1].rsplit("::", 1)[-1] in ("iter", "into_iter", "enumerate") and len(base[2]) == 1:
-                base = base[2][0]
-            good = good and base == formulae
-            why = "the parsed strings are not the input formulae in order"
-    rep.check(good, "C17-R1", "parser-flavour", pe[0].where() if pe else where, "extended parser iff a context archive is given; every input formula parsed in order", why)
-    val = one("validate_props_and_rename_vars")
-    good = len(val) == 1 and pe and ph and all(any(y == p[0].term for y in subterms(val[0].args[0])) for p in (pe, ph))
-    rep.check(good, "C17-R1", "validate", val[0].where() if val else where, "every parsed tree goes through validate_props_and_rename_vars",
-              "the parsed tree is not validated / renamed before evaluation")
-    # maximum number of variables
-    gsite = one("get_extended_symbolic_graph")
-    good = len(gsite) == 1 and gsite[0].args[0] == bn
-    why = "graph is not built for the given network"
+            lv, step = ("loopvar", m[1], m[2]), m[4]
+            count = C("len", C("collect_unique_hctl_vars", P(lambda t: pm.strip(t) == pm.strip(tree))))
+            is_n = lambda t: pm.match(count, t) is not None      # noqa: E731
+            ok_step = False
+            if step[0] == "ite" and step[1][0] == "bin":
+                op, x, y = step[1][1], step[1][2], step[1][3]
+                if op in (">", ">=") and is_n(x) and y == lv:
+                    ok_step = is_n(step[2]) and step[3] == lv
+                elif op in ("<", "<=") and x == lv and is_n(y):
+                    ok_step = is_n(step[2]) and step[3] == lv
+                elif op in ("<", "<=") and is_n(x) and y == lv:
+                    ok_step = step[2] == lv and is_n(step[3])
+                elif op in (">", ">=") and x == lv and is_n(y):
+                    ok_step = step[2] == lv and is_n(step[3])
+            elif step[0] == "call" and last(step[1]) == "max" and len(step[2]) == 2:
+                ok_step = (step[2][0] == lv and is_n(step[2][1])) or (step[2][1] == lv and is_n(step[2][0]))
+            good = ok_step
+            why = f"accumulator update is {sem.short(step, 200)}: it must be max(accumulator, number of quantifier variables of the validated tree)"
+    rep.check(good, "C17-R1", "graph/max-variables", ev.where(), "graph sized by the maximum number of quantifier variables over all validated trees", why)
+    graph_t = pm.strip(ev.args[1])
+    rep.check(pm.match(C("compute_steady_states", P(lambda t: t == graph_t)), ev.args[3]) is not None, "C17-R1", "steady-states", ev.where(),
+              "eval_node receives compute_steady_states of the graph it evaluates on", f"the steady-state argument is {sem.short(ev.args[3], 100)}")
+    # (3) the context: one EvalContext from all validated trees, in input order
+    ctx = ev.args[2]
+    init = None
+    if ctx[0] == "loopvar":
+        info = s.loops.get(ctx[1], {})
+        nm = [k for k in info.get("vars", {}) if k == ctx[2]]
+        init = info["vars"][nm[0]][0] if nm else None
+    elif ctx[0] == "mu":
+        init = ctx[3]
+    else:
+        init = ctx
+    items = effects.trace(init, s) if init is not None else []
+    good = bool(items) and items[0][0] == "init"
+    why = "the evaluation context could not be traced"
     if good:
-        m = gsite[0].args[1]
-        mus = [y for y in [m] + list(subterms(m)) if y[0] == "mu"]
-        good = len(mus) >= 1
-        why = f"the variable count passed to the graph is {sem.short(m, 100)}, not an accumulated maximum"
+        ef = pm.match(C("from_multiple_trees", V("trees")), items[0][1])
+        good = ef is not None
+        why = f"the context starts as {sem.short(items[0][1], 100)}, not EvalContext::from_multiple_trees(all trees)"
         if good:
-            mu = mus[0]
-            init, step = mu[3], mu[4]
-            lv = ("loopvar", mu[1], mu[2])
-            # step = ite(n > X ? n : X) with n = number of quantifier variables of the validated tree
-            good = (init == ("lit", 0) and step[0] == "ite" and step[1][0] == "bin" and step[1][1] in (">", ">=") and step[1][3] == lv and step[2] == step[1][2]
-                    and step[3] == lv and "collect_unique_hctl_vars" in pt(step[2]) and val and any(y == val[0].term for y in subterms(step[2])))
-            if not good and step[0] == "call" and step[1].rsplit("::", 1)[-1] == "max":
-                good = init == ("lit", 0) and lv in step[2] and any("collect_unique_hctl_vars" in pt(a) for a in step[2])
-            why = f"accumulator update is {sem.short(step, 160)}: it must only ever be replaced by a larger count"
-    rep.check(good, "C17-R1", "graph/max-variables", gsite[0].where() if gsite else where, "graph sized by the maximum number of quantifier variables", why)
-    graph_t = terms.mk_proj(gsite[0].term, "std::result::Result::Ok", 0) if gsite else None      # `get_extended_symbolic_graph(..)?`
-    # context
-    fm = one("from_multiple_trees")
-    evs = one("eval_node")
-    good = len(fm) == 1 and len(evs) == 1 and not fm[0].loops
-    why = f"{len(fm)} contexts, {len(evs)} eval_node sites"
-    trees = fm[0].args[0] if fm else None
+            trees = ef["trees"]
+            good = trees[0] == "collect" and c16.source_root(trees[1]) == formulae and pm.strip(trees[2]) == pm.strip(tree)
+            why = f"the context is built from {sem.short(trees, 140)}: not the list of validated trees, one per input formula, in input order"
+    rep.check(good, "C17-R1", "evaluation", ev.where(), "one context from all validated trees; eval_node per tree, in input order", why)
+    # (4) extended mode
+    flat = []
+    for it in items[1:]:
+        if it[0] == "cond":
+            flat += [(x, it[1], True) for x in it[2]] + [(x, it[1], False) for x in it[3]]
+        else:
+            flat.append((it, None, None))
+    ops = [(x, c, pol) for x, c, pol in flat if x[0] == "op"]
+    other = [x for x, c, pol in flat if x[0] != "op" or x[1] != "extend_context_with_wild_cards"]
+    ex = [x for x in s.all_sites() if x.kind == "mcall" and x.name == "extend_context_with_wild_cards"]
+    good = len(ex) == 1 and len(ops) == 1 and not other
+    why = f"the context receives {[x[1] if x[0] == 'op' else x[0] for x, _, _ in flat]} before evaluation; expected one extend_context_with_wild_cards"
     if good:
-        ev = evs[0]
-        loop = [x for x in s.sites if x.kind == "for" and x.node["id"] in ev.loops]
-        it = loop[0].args[0] if loop else None
-        base = it
-        while base is not None and base[0] == "call" and base[1].rsplit("::", 1)[-1] in ("iter", "into_iter", "enumerate") and len(base[2]) == 1:
-            base = base[2][0]
-        good = base == trees and any(y == ("elem", it) for y in subterms(ev.args[0]))
-        why = "the evaluated trees are not the list the context was built from, in order"
+        st = ex[0]
+        good = any(pol and t == HASCTX for t, pol in q.conds(st.pc))
+        why = "the wild-card context is not installed exactly when a context archive is given"
+        loaded = OK(C("load_bdd_bundle", SOME(P(lambda t: t == ctxpath)), C("symbolic_context", P(lambda t: t == graph_t))))
+        vd = OK(C("validate_and_divide_wild_cards", P(lambda t: pm.strip(t) == pm.strip(tree)), loaded))
         if good:
-            pushes = [x for x in s.sites if x.kind == "mcall" and x.name == "push" and val and any(y == val[0].term for a in x.args[1:] for y in [a] + list(subterms(a)))]
-            good = len(pushes) == 1 and trees[0] == "mu"
-            why = "the tree list is not the list of validated trees"
-        if good:
-            good = ev.args[1] == graph_t and pipelines.is_steady_of(ev.args[3], graph_t)
-            why = "eval_node is not called on the sized graph with that graph's steady states"
-    rep.check(good, "C17-R1", "evaluation", evs[0].where() if evs else where, "one context from all validated trees; eval_node per tree in order on the sized graph", why)
-    # extended context
-    ld = one("load_bdd_bundle")
-    vd = one("validate_and_divide_wild_cards")
-    ex = [x for x in s.sites if x.kind == "mcall" and x.name == "extend_context_with_wild_cards"]
-    good = len(ld) == 1 and len(vd) == 1 and len(ex) == 1
-    why = f"{len(ld)} load_bdd_bundle, {len(vd)} validate_and_divide_wild_cards, {len(ex)} extend_context_with_wild_cards"
-    if good:
-        sc = ld[0].args[1]
-        good = sc[0] == "call" and sc[1].endswith("symbolic_context") and sc[2] == (graph_t,) and terms.mentions_param(ld[0].args[0], pn[4])
-        why = "context sets are not loaded from the given archive with the sized graph's symbolic context"
-        if good:
-            loop = [x for x in s.sites if x.kind == "for" and x.node["id"] in vd[0].loops]
-            base = loop[0].args[0] if loop else None
-            while base is not None and base[0] == "call" and base[1].rsplit("::", 1)[-1] in ("iter", "into_iter") and len(base[2]) == 1:
-                base = base[2][0]
-            good = len(loop) == 1 and base == trees and vd[0].args[0] == ("elem", loop[0].args[0]) and vd[0].args[1] == terms.mk_proj(ld[0].term, "std::result::Result::Ok", 0)
-            why = "not every evaluated tree is validated against the loaded context"
-        if good:
-            good = all(any(y == vd[0].term for y in subterms(a)) for a in ex[0].args[1:3]) and any(y == fm[0].term for y in [ex[0].args[0]] + list(subterms(ex[0].args[0])))
-            why = "the maps handed to the context do not derive from validate_and_divide_wild_cards"
-        if good:
-            def under_ext(site):
-                return any(c[0] == "if" and c[2] and c[1][0] == "call" and c[1][1].endswith("is_some") and c[1][2] == (ctxpath,) for c in site.pc)
-            good = under_ext(ld[0]) and under_ext(ex[0])
-            why = "wild-card handling is not conditioned on the context archive being given"
-    rep.check(good, "C17-R1", "extended-context", vd[0].where() if vd else where,
+            for i, a_ in ((0, st.args[1]), (1, st.args[2])):
+                hits = [x for x in [a_] + list(subterms(a_)) if x[0] in ("tproj", "field") and str(x[2]) == str(i) and pm.match(vd, x[1]) is not None]
+                calls = [x for x in [a_] + list(subterms(a_)) if x[0] == "call" and isinstance(x[1], str) and last(x[1]) == "validate_and_divide_wild_cards"]
+                if not hits or len({pm.strip(c) for c in calls}) != 1:
+                    good = False
+                    why = (f"argument {i + 1} of extend_context_with_wild_cards is {sem.short(a_, 160)}: expected component {i} of "
+                           "validate_and_divide_wild_cards(validated tree, load_bdd_bundle(archive, symbolic context of the sized graph)) for every tree")
+    rep.check(good, "C17-R1", "extended-context", ex[0].where() if ex else where,
               "with a context archive: every tree validated against the archived sets, validated maps installed in the context", why)
-    rep.floor("C17-R1", 5)
+    rep.floor("C17-R1", 6)
     # ---- R2
     lf = prog.lib_fn("load_inputs::load_formulae")
     if lf is None:
         rep.unresolved("C17-R2", "load_formulae", "", "function not found")
     else:
         rep.functions.add(lf.qual)
-        ls = eng.summary(lf)
-        pushes = [x for x in ls.sites if x.kind == "mcall" and x.name == "push"]
-        fors = [x for x in ls.sites if x.kind == "for"]
-        good = len(pushes) == 1 and len(fors) == 1
-        why = f"{len(pushes)} pushes, {len(fors)} loops"
+        ls = terms.Engine(prog, inline=True, hooks=E.Hooks(["load_inputs::"])).summary(lf)
+        lpn = lf.param_names()
+        t = ls.ret
+        el = pm.match(("ctor", P(lambda x: last(x) == "Ok") if False else ANY, (V("list"),)), t) if t[0] == "ctor" and last(t[1]) == "Ok" else None
+        good = el is not None
+        why = f"load_formulae returns {sem.short(t, 160)}"
         if good:
-            it = fors[0].args[0]
-            line = ("elem", it)
-            lines_ok = it[0] == "call" and it[1].endswith("::lines")
-            trimmed = None
-            for y in [pushes[0].args[1]] + list(subterms(pushes[0].args[1])):
-                if y[0] == "call" and y[1].endswith("::trim") and y[2] == (line,):
-                    trimmed = y
-            good = lines_ok and trimmed is not None
-            why = "the pushed value is not the trimmed line of a `lines()` iteration"
+            lst = el["list"]
+            good = lst[0] == "collect" and lst[1][0] == "hof" and lst[1][1] == "filter"
+            why = f"the list is {sem.short(lst, 200)}: not a filtered list of lines"
             if good:
-                conds = []
-                for c in pushes[0].pc:
-                    if c[0] == "if":
-                        conds.append((c[1], c[2]))
-                import setalg
-                alg = setalg.Alg()
+                src, cond, val = lst[1][2], lst[1][3], lst[2]
+                esrc = pm.match(C("lines", OK(C("read_to_string", V("path")))), src)
+                line = ("elem", src)
+                trimmed = C("trim", P(lambda x: x == line))
+                good = esrc is not None and esrc["path"] == ("param", lpn[0]) and pm.match(trimmed, val) is not None
+                why = f"kept value {sem.short(val, 80)} over {sem.short(src, 80)}: expected the trimmed line of the file's lines()"
+                if good:
+                    import setalg
+                    alg = setalg.Alg()
 
-                def conv(t):
-                    if t[0] == "not":
-                        return ("not", conv(t[1]))
-                    if t[0] == "bin" and t[1] in ("&&", "||"):
-                        return ("and" if t[1] == "&&" else "or", conv(t[2]), conv(t[3]))
-                    if t[0] == "call" and t[1].endswith("::is_empty") and t[2] == (trimmed,):
-                        return ("atom", "EMPTY")
-                    if t[0] == "call" and t[1].endswith("::starts_with") and t[2] == (trimmed, ("lit", "#")):
-                        return ("atom", "COMMENT")
-                    return ("atom", ("other", repr(t)))
-                e = setalg.TRUE
-                for t, pol in conds:
-                    x = conv(t)
-                    e = ("and", e, x if pol else ("not", x))
-                want = ("and", ("not", ("atom", "EMPTY")), ("not", ("atom", "COMMENT")))
-                good = alg.equivalent(e, want)
-                why = f"a line is kept under [{ppc(pushes[0].pc)[-220:]}]; it must be kept iff its trimmed form is non-empty and does not start with `#`"
+                    def conv(x):
+                        if x[0] == "not":
+                            return ("not", conv(x[1]))
+                        if x[0] == "bin" and x[1] in ("&&", "||"):
+                            return ("and" if x[1] == "&&" else "or", conv(x[2]), conv(x[3]))
+                        if pm.match(C("#is_empty", trimmed), x) is not None:
+                            return ("atom", "EMPTY")
+                        if pm.match(C("starts_with", trimmed, P(lambda y: y == ("lit", "#"))), x) is not None:
+                            return ("atom", "COMMENT")
+                        return ("atom", ("other", repr(x)))
+                    want = ("and", ("not", ("atom", "EMPTY")), ("not", ("atom", "COMMENT")))
+                    good = alg.equivalent(conv(cond), want)
+                    why = f"a line is kept under [{sem.short(cond, 220)}]; it must be kept iff its trimmed form is non-empty and does not start with `#`"
         rep.check(good, "C17-R2", "load_formulae/filter", f"{lf.file}:{lf.line}", "keeps trim(line) iff trim(line) is non-empty and not a comment, in order", why)
-        errs = [r for r in ls.returns if r[5] == "try"]
-        rep.check(bool(errs) and "read_to_string" in pt(errs[0][0]), "C17-R2", "load_formulae/errors", f"{lf.file}:{lf.line}", "read errors are propagated as Err",
-                  "a read error of the formula file is not propagated")
+        errs = [r for r in ls.returns if r[5] == "try"] + [r for r in ls.returns if r[5] != "try" and any(y[0] == "ctor" and last(y[1]) == "Err" for y in [r[0]] + list(subterms(r[0])))]
+        rep.check(bool(errs) and any("read_to_string" in pt(r[0]) or any("read_to_string" in pt(c[1]) for c in r[1] if c[0] in ("if", "match")) for r in errs),
+                  "C17-R2", "load_formulae/errors", f"{lf.file}:{lf.line}", "read errors are propagated as Err", "a read error of the formula file is not propagated")
     rep.floor("C17-R2", 2)
     check_options(prog, rep, eng)
     check_error_discipline(prog, rep, eng)
@@ -304,24 +304,23 @@ def check_error_discipline(prog, rep, eng):
                 continue
             recv = x.args[0]
             ty = str(x.argnodes[0].get("ty")) if x.argnodes and x.argnodes[0] else ""
+            tested = c14.known_some(x.pc, recv) or (recv[0] == "ctor" and last(recv[1]) in ("Some", "Ok"))
             if "Result<" not in ty and "result::Result" not in ty:
-                # Option: only flag Options that come from user data
-                if recv == ("param", "context_archive_path") or any(c[0] == "if" and c[2] and c[1][0] == "call" and c[1][1].endswith("is_some") and c[1][2] == (recv,) for c in x.pc):
-                    n += 1
-                    rep.ok("C17-R4", f"{f.name}/unwrap@{x.ordinal}", x.where(), "Option tested with is_some before unwrap")
+                # Option: `r.err().unwrap()` / `r.ok().unwrap()` after the Result was tested; Options tested before use
+                if recv[0] == "call" and isinstance(recv[1], str) and last(recv[1]) in ("err", "ok") and len(recv[2]) == 1:
+                    want_ok = last(recv[1]) == "ok"
+                    if any(q.is_ok_test(t) == recv[2][0] and pol == want_ok for t, pol in q.conds(x.pc)):
+                        n += 1
+                        rep.ok("C17-R4", f"{f.name}/unwrap@{x.ordinal}", x.where(), "err()/ok() of a Result tested with is_err / is_ok")
                     continue
-                if recv[0] == "call" and recv[1].rsplit("::", 1)[-1] in ("err", "ok") and any(
-                        c[0] == "if" and c[1][0] == "call" and c[1][1].rsplit("::", 1)[-1] in ("is_err", "is_ok") and c[1][2] == recv[2] for c in x.pc):
+                if tested:
                     n += 1
-                    rep.ok("C17-R4", f"{f.name}/unwrap@{x.ordinal}", x.where(), "err()/ok() of a Result tested with is_err / is_ok")
-                    continue
+                    rep.ok("C17-R4", f"{f.name}/unwrap@{x.ordinal}", x.where(), "Option tested before unwrap")
                 continue
             n += 1
-            tested = any(c[0] == "if" and c[1][0] == "call" and c[1][1].rsplit("::", 1)[-1] == "is_err" and c[1][2] == (recv,) and not c[2] for c in x.pc) or \
-                any(c[0] == "if" and c[1][0] == "call" and c[1][1].rsplit("::", 1)[-1] == "is_ok" and c[1][2] == (recv,) and c[2] for c in x.pc)
-            inner = recv[1].rsplit("::", 1)[-1] if recv[0] == "call" and isinstance(recv[1], str) else ""
-            allowed = inner in ALLOWED_UNWRAP and (inner != "new" or "SymbolicContext" in recv[1])
+            inner = c14.origin(recv)
+            allowed = inner in ALLOWED_UNWRAP and (inner != "new" or (recv[0] == "call" and "SymbolicContext" in str(recv[1])))
             rep.check(tested or allowed, "C17-R4", f"{f.name}/unwrap:{inner}@{x.ordinal}", x.where(),
-                      "Result unwrapped only after is_err was excluded (or reviewed exception)",
+                      "Result unwrapped only after the error case was excluded (or reviewed exception)",
                       f"`{x.name}` on the fallible result of `{inner}` in {f.path}: an unreadable input / invalid formula / missing label crashes instead of being reported")
     rep.floor("C17-R4", 8)
